@@ -446,6 +446,12 @@ def run(tier="quick"):
     for o in obs:
         if o.id.startswith(("C05.opt.", "C05.cli.")) and "C01" not in o.props:
             o.props.append("C01")
+        # every operator instruction (int, float, string, comparison) is rewritten by the same passes (operand fusion, dest
+        # replacement, immediate forms): a wrong rewrite breaks the operator's own property as well
+        if o.id.startswith("C05.opt."):
+            for extra in ("C15", "C16", "C17", "C24"):
+                if extra not in o.props:
+                    o.props.append(extra)
         if (o.id.startswith("C05.fold.") or o.id in ("C05.opt.peephole3.window", "C05.cli.operand_forms.sampled")):
             for extra in ("C15", "C16"):
                 if extra not in o.props:
